@@ -91,7 +91,7 @@ def mutate(rng, fam, body):
         # strategy;retry;minreq;ivl;buckets;maxrt;thr
         idx = rng.choice([1, 2, 3, 6])
         if idx == 6:
-            p[6] = ({"1": "2", "2": "3", "3": "1"} if p[0] == "c" else {"1/2": "1", "1": "1/4", "1/4": "1/2"}).get(p[6], "1")
+            p[6] = ({"1": "2", "2": rng.choice(["3", "3/2"]), "3": rng.choice(["1", "5/2"]), "3/2": "2", "5/2": "3"} if p[0] == "c" else {"1/2": "1", "1": "1/4", "1/4": "1/2"}).get(p[6], "1")
         elif idx == 3:
             p[3] = str(int(p[3]) * 2)
         else:
@@ -174,7 +174,7 @@ def gen_case(rng):
         st = rng.choice(["c", "r", "s"])
         ivl = rng.choice([1000, 2000])
         retry = rng.choice([300, 500, 1500])
-        thr = rng.choice(["1", "2"]) if st == "c" else rng.choice(["1/2", "1"])
+        thr = rng.choice(["1", "2", "3/2", "5/2"]) if st == "c" else rng.choice(["1/2", "1"])   # error counts need not be whole (applied truncated; seed C11-f)
         rules = [("b", "%s;%d;%d;%d;%d;50;%s" % (st, retry, rng.randint(1, 2), ivl, rng.choice([1, 2]), thr))]
         ops.append("br.load res=r rules=%s" % ",".join(i + ";" + b for i, b in rules))
         ops.append("adv ms=%d" % rng.choice([1, 250]))
